@@ -35,6 +35,7 @@ type VirtualMachine struct {
 	fp           int // frame pointer
 	halt         int32
 	startCount   int64
+	stopWatch    chan struct{}
 	activeFrame  *frame
 	activeCode   *code
 	main         *compiler.Code
@@ -127,16 +128,29 @@ func (vm *VirtualMachine) start(ctx context.Context) error {
 	}
 	vm.running = true
 	vm.startCount++
-	// Halt execution when the context is cancelled
-	vm.halt = 0
+	// Halt execution when the context is cancelled. The watcher belongs to
+	// this run only: it is released when the run stops, and it never halts a
+	// later run that happens to reuse the VM.
+	atomic.StoreInt32(&vm.halt, 0)
 	if doneChan := ctx.Done(); doneChan != nil {
+		run := vm.startCount
+		stopChan := make(chan struct{})
+		vm.stopWatch = stopChan
 		tok := verifhook.Spawn("vm.watcher")
 		go func() {
 			verifhook.Start(tok)
 			defer verifhook.Exit(tok)
-			<-doneChan
+			select {
+			case <-doneChan:
+			case <-stopChan:
+				return
+			}
 			verifhook.Yield("vm.watcher.fire")
-			atomic.StoreInt32(&vm.halt, 1)
+			vm.runMutex.Lock()
+			defer vm.runMutex.Unlock()
+			if vm.running && vm.startCount == run {
+				atomic.StoreInt32(&vm.halt, 1)
+			}
 		}()
 	}
 	return nil
@@ -146,6 +160,10 @@ func (vm *VirtualMachine) stop() {
 	vm.runMutex.Lock()
 	defer vm.runMutex.Unlock()
 	vm.running = false
+	if vm.stopWatch != nil {
+		close(vm.stopWatch)
+		vm.stopWatch = nil
+	}
 }
 
 func (vm *VirtualMachine) Run(ctx context.Context) (err error) {
